@@ -21,7 +21,7 @@ P("C03", ["error message texts"])
 P("C04", ["wrapper body addr_of!((*self.vftable()).name).read() (quote!)", "execution of the emitted wrapper"])
 P("C05", ["wrapper text (hex literal, transmute, argument forwarding) and its execution"])
 P("C06", ["the accessor text self.<base>.vftable() as *const ..."])
-P("C07", ["forwarding method text, AsRef/AsMut emission and duplicate suppression (rust.rs:287-378)"])
+P("C07", ["forwarding method text (rust.rs:528-574)", "AsRef/AsMut emission and duplicate suppression (rust.rs:287-378)", "TypeDefinition::dfs_hierarchy (recursion through the registry: termination needs the acyclicity of by-value embedding, not expressible as a decreases clause on one call)", "members a base inherited itself are covered only through the base's own associated functions (the statement about one type composes over the hierarchy by induction on resolution order, which is not proved)"])
 P("C08", ["repr(T), `Name = value as _`, #[default] placement (quote!)", "literal parsing (syn)"])
 P("C10", ["progress direction (acyclic and defined => eventually resolved) and termination of the outer loop: whole-history argument over HashMap iteration order"])
 P("C11", ["fully_qualified_type_ref_impl (write! into String, no formatting model)"])
